@@ -19,7 +19,10 @@ def one(path, tier, all_listed):
     props = sorted(set(m["caught_by"] + m["missed_by"])) if all_listed else [m["property"]]
     p = subprocess.run([os.path.join(ROOT, "tools", "seeded_eval.py"), os.path.join(d, "patch.diff"), os.path.join(d, "demo.py"),
                         "--props", ",".join(props), "--tier", tier, "--no-tests"], capture_output=True, text=True)
-    res = json.loads(p.stdout)
+    try:
+        res = json.loads(p.stdout)
+    except ValueError:
+        return m["id"], {"ERROR": (p.stderr or p.stdout).strip().splitlines()[-1:][0][:200] if (p.stderr or p.stdout).strip() else "?"}, None, None
     for k, v in res["checks"].items():
         m["what_was_run"]["checks_against_patched_tree (exit 1 = caught)"][k] = v
     allc = m["what_was_run"]["checks_against_patched_tree (exit 1 = caught)"]
